@@ -33,13 +33,18 @@ INPUT_CLASS = {1: "clean", 2: "missing-values", 3: "missing-values", 4: "fails-a
 DECODE_INPUTS = ["1", "'abc'", "2001-01-01", "a b", "16#FF#", "12:00:60", "NULL", "1.5e3", "23:59:60", "2001-366", "*/", "a*/"]
 
 
+def _new_module():
+    import pvl.new
+    return pvl.new.loads("GROUP = g\n x = 1\nEND_GROUP\nOBJECT = o\n y = 2\nEND_OBJECT\nEND\n")
+
+
 def encode_inputs():
     import pvl
     from pvl.collections import PVLModule, PVLGroup, PVLObject, Quantity
     return [
         PVLModule(a=1, b="two"),
         PVLModule(a=object()),
-        PVLModule([("g", PVLGroup(x=1))]),
+        _new_module(),                              # a module of the pvl.new container classes (its groups are of another class)
         PVLModule(q=Quantity(5, "m"), t=datetime.datetime(2001, 1, 1, 12, 0, 0)),
         PVLModule([("o", PVLObject([("g", PVLGroup(y={1, 2}))])), ("s", ["a", "b c"])]),
         PVLModule(f=float("inf")),
@@ -68,6 +73,7 @@ def kinds():
 
     def parse_call(inst, x):
         m = inst.parse(PARSE_INPUTS[x])
+        _G["last_raw"] = m
         return {"module": project(m), "errors": list(getattr(m, "errors", [])), "inst_errors": "n/a"}
 
     def enc_call(inst, x):
@@ -85,6 +91,7 @@ def kinds():
         elif x % 3 == 2:
             kw["decoder"] = D.PVLDecoder(G.PVLGrammar())
         m = pvl.loads(PARSE_INPUTS[x], parser=inst, **kw)
+        _G["last_raw"] = m
         return {"module": project(m), "errors": list(getattr(m, "errors", []))}
 
     def dumps_call(inst, x):
@@ -156,13 +163,34 @@ def _session(job):
     inst = shared() if shared else fresh()
     evs = []
     detail = []
+    kept = []            # the objects returned by earlier calls on the long-lived instance, with their digest at the time
     for x in hist:
         x0 = x - 1
+        _G["last_raw"] = None
         reused, rd = outcome(call, inst, x0)
+        raw = _G.get("last_raw")
         fr, fd = outcome(call, fresh(), x0)
+        # a result handed out earlier must not change when the instance is used again (aliasing of internal lists)
+        for old_digest, old_obj in kept:
+            if live_digest(old_obj) != old_digest:
+                reused = "earlier-result-changed:" + reused
+                rd = {"earlier_result_now": repr(live_view(old_obj))[:300], "this_call": rd}
+                break
         evs.append({"input": x, "reused": reused, "fresh": fr})
         detail.append((rd, fd))
+        if raw is not None:
+            kept.append((live_digest(raw), raw))
     return {"ev": evs}, detail
+
+
+def live_view(obj):
+    """what a caller still holding an earlier result can see of it"""
+    errs = getattr(obj, "errors", None)
+    return {"module": project(obj) if not isinstance(obj, str) else obj, "errors": list(errs) if errs is not None else None}
+
+
+def live_digest(obj):
+    return digest(live_view(obj))
 
 
 def run(ctx, rep):
